@@ -154,5 +154,11 @@ func yyLexErrorf(l yyLexer, format string, a ...any) int {
 // util
 
 func trimString(s string) string {
+	// Strip the enclosing quotes only, a value can start or end with an escaped quote.
+	if len(s) >= 2 && s[0] == '"' && s[len(s)-1] == '"' {
+		return s[1 : len(s)-1]
+	}
+
+	// An unterminated literal, the scanner has reported an error.
 	return strings.Trim(s, "\"")
 }
